@@ -72,6 +72,30 @@ Proof.
 Qed.
 Print Assumptions C07_whole_life_uninit_no_fault.
 
+(* ... and from a request history (LinkChain.v): over all the variants of the definition the builder produced, with the
+   stages read off its consecutive variants, no generated operation of the whole life reaches a Fault *)
+From Truc.Proofs Require Import BuilderInv LayoutThms Link LinkChain.
+Theorem C07_life_from_history_no_fault : forall h TI rt cap mx, hist_ok h -> pow2_hist h -> rt_ok rt = true ->
+  let b := run h in let ds := b_ds b in let A := max_type_align (ds, b_vs b) in
+  (forall v i, In v (b_vs b) -> In i v ->
+     ti_size (TI (d_ty (getd ds i))) = d_size (getd ds i) /\ ti_align (TI (d_ty (getd ds i))) = d_align (getd ds i)) ->
+  max_size (ds, b_vs b) = Some mx -> (mx <= cap)%N ->
+  (forall v, In v (b_vs b) -> forall i j, In i v -> In j v -> i <> j -> Gen.ty ds i = Gen.ty ds j ->
+     d_size (getd ds i) = 0%N -> Gen.of ds i <> Gen.of ds j) ->
+  forall P0 rest stages vals v0 v,
+  b_vs b = P0 :: rest -> stages_follow h TI (b_vs b) stages ->
+  exists r bf d back dropped,
+    op_new ds TI rt A cap v0 P0 vals = Ok (ORecord r, []) /\
+    uchain_run ds TI rt A cap r stages = Ok (bf, d, back) /\
+    op_drop ds TI rt A cap v (last (b_vs b) P0) bf = Ok (ONone, dropped).
+Proof.
+  intros h TI rt cap mx Hh Hp RT b ds A HTI Hm Hcap Hz P0 rest stages vals v0 v Evs Hf.
+  destruct (life_from_history h Hh Hp TI HTI cap (ex_intro _ mx (conj Hm Hcap)) Hz rt RT P0 rest stages vals v0 v Evs Hf)
+    as (r & bf & d & back & dropped & E0 & E1 & E2 & _).
+  exists r, bf, d, back, dropped. auto.
+Qed.
+Print Assumptions C07_life_from_history_no_fault.
+
 Theorem C07_current : rt_ok Runtime.exec_rt = true.
 Proof. reflexivity. Qed.
 
